@@ -211,3 +211,25 @@ Example C01_complete_closed_ex :
   | None => False
   end.
 Proof. vm_compute. intuition. Qed.
+
+(* ... and with the condition on the calls stated at the START of the closed continuation (internal rules change neither
+   the kind nor the payload of a call and never park one that is not about to be parked): from every state reached
+   without faults and cancellation in which every call is unary, has a non-negative payload and is neither held nor about
+   to be held at its yield point ([okc]: k_pc is not PParked / PCheck true), every closed continuation ending in a
+   quiescent (= final) state has every call returned OK with f of its own request *)
+From Goat Require Proofs.ClientCallsOk Proofs.SysTermC01.
+Theorem C01_complete_closed_from : forall f ls s ls' s',
+  (forall x, 0 <= x -> 0 <= f x) ->
+  Sys.lrun (pol_c01 f) Sys.init ls = Some s -> fault_free ls = true -> no_cancel ls = true ->
+  forallb ClientCallsOk.okc (calls (cl s)) = true ->
+  SysTerm.sys_crun (pol_c01 f) s ls' = Some s' -> Sys.quiescent s' = true ->
+  forall c k, nth_error (calls (cl s')) c = Some k -> In (EvUnaryRet c (UOk (f (k_payload k)))) (Client.log (cl s')).
+Proof. exact SysTermC01.C01_complete_closed_from_l. Qed.
+Print Assumptions C01_complete_closed_from.
+
+Example C01_complete_closed_from_ex :
+  match Sys.lrun (pol_c01 mix3) Sys.init start3 with
+  | Some s => forallb ClientCallsOk.okc (calls (cl s)) = true /\ length (calls (cl s)) = 3%nat
+  | None => False
+  end.
+Proof. vm_compute. auto. Qed.
